@@ -369,12 +369,15 @@ def label_oracle(p, label):
             return f"sign {m.group(1)!r}, expected {SETSYM[c]!r}"
         have, want = sorted(m.group(2).split(", ")), sorted(str(i) for i in p.v) or [""]
         return None if have == want else f"members {have}, expected {want}"
+    if c is CompPredicate:  # names the operator; may show the composed function
+        return None if (label == "f" or label.startswith(("f:", "f ", "comp"))) else "expected 'f' (optionally followed by the function)"
     if c in WORDS:
-        return None if label == WORDS[c] else f"expected {WORDS[c]!r}"
+        return None if WORDS[c] in label.lower().replace("_", " ").split() or label == WORDS[c] else f"expected a label naming {WORDS[c]!r}"
+    neg = ("≠" in label) or ("not" in label.lower().split()) or ("!=" in label)
     if c is IsNonePredicate:
-        return None if label == "x = None" else "expected 'x = None'"
+        return None if ("None" in label and not neg) else "expected a label saying 'is None' (e.g. 'x = None')"
     if c is IsNotNonePredicate:
-        return None if label == "x ≠ None" else "expected 'x ≠ None'"
+        return None if ("None" in label and neg) else "expected a label saying 'is not None' (e.g. 'x ≠ None')"
     if c is IsEmptyPredicate:
         return None if "empty" in label and "not" not in label else "expected 'empty'"
     if c is IsNotEmptyPredicate:
